@@ -180,6 +180,8 @@ class Ctx:
             'violations': nviol,
         }
         sub = 'extras' if self.pid.startswith('X') else 'evidence'
+        if os.path.realpath(REPO) != '/repo':
+            sub = os.path.join('.work', 'evidence_scratch_tree')      # a run against a scratch copy never rewrites the committed evidence
         os.makedirs(os.path.join(VERIF, sub), exist_ok=True)
         with open(os.path.join(VERIF, sub, f'{self.pid}.json'), 'w') as f:
             json.dump(ev, f, indent=1, default=jdefault)
